@@ -103,6 +103,34 @@ def corpus(max_nodes):
     return out
 
 
+CURATED = ["m(m(m(r,o)))", "m(m(m(r,r)))", "m(m(m(r,m)))", "m(m(m(r,o),r))", "m(m(m(r,o)),r)", "r,m(m(m(r,o)))", "o(m(m(r,o)))",
+           "m(m(r,m(r,o)))", "m(r,m(r,m(r,o)))", "r(r(r(r,o)))", "o(o(o(r,o)))", "o(r,o(r,o(r,o)))",
+           "r,r,o,o(r,o,m(r,r)),m(r,r,o)", "r,m(m,m),m(m(r,o),o)", "r,o,m,r(r,o,m),o(r,o,m),m(r,r,m)"]
+
+
+def corpus_for(thorough):
+    """the seed-independent shape corpus of a tier: all shapes with <= 3 nodes; 4-node shapes (all in
+    thorough, every 9th in quick; depth <= 3) plus the 4-node chains of three nested groups; a fixed
+    sample of 5-node shapes (depth <= 4); curated larger shapes (three nested repeated groups, the
+    repository's own Person/Document shapes)"""
+    out = corpus(3)
+    four = [f for f in corpus(4) if sum(1 for c in name_of(f) if c in "rom") == 4]
+    deep4 = [f for f in forests(4) if depth(f) == 4]
+    five = [f for f in forests(5) if depth(f) <= 4]
+    if thorough:
+        out += four + deep4 + five[::12]
+    else:
+        out += four[::9] + deep4[::3] + five[::120]
+    out += [parse_name(n) for n in CURATED]
+    seen, res = set(), []
+    for f in out:
+        n = name_of(f)
+        if n not in seen:
+            seen.add(n)
+            res.append(f)
+    return res
+
+
 # ---------------------------------------------------------------- Go source
 
 def render(forest, pkg, prims=None):
